@@ -14,6 +14,8 @@ Input (ints):  wb sb pb  <models>  init_kind init_words(len-prefixed)  ops...
       11 m k syms.. f try_encode_symbols, Err at index f -> 0 | -1 | -4
       12              raw parts                        -> len bulk.. state
       13 m k          decode_iid_symbols(k)            -> k syms
+      23 m k          the same on into_seekable_decoder(), then into_reversed() twice and back to
+                      the Vec-backed coder (yielded as op 13 by `walk`: one operation for the oracles)
       14              clone, continue on the clone     -> 0
   the final raw parts are always appended.
 """
@@ -132,7 +134,7 @@ def gen_stack(rng, max_ops=120):
             if k > 1:
                 for _ in range(k - 1):
                     pending.pop()
-                form = rng.choice([13, 21, 22])
+                form = rng.choice([13, 23, 21, 22])
                 if form == 22:
                     # k decodes plus one error item at index f (f in 0..k): k + 1 models in total
                     f = rng.randint(0, k)
@@ -166,7 +168,7 @@ def gen_free(rng, max_ops=80):
         elif r < 0.6:
             ops += [2, m]
         elif r < 0.65:
-            ops += [13, m, rng.randint(0, 5)]
+            ops += [rng.choice([13, 13, 23]), m, rng.randint(0, 5)]
         elif r < 0.7:
             ops += [3]
         else:
@@ -369,7 +371,7 @@ def walk(inp, out):
         elif op == 12:
             n = out[o]
             yield (12, [], (out[o + 1:o + 1 + n], out[o + 1 + n])); i += 1; o += 2 + n
-        elif op == 13:
+        elif op in (13, 23):
             k = inp[i + 2]
             yield (13, (inp[i + 1], k), out[o:o + k]); i += 3; o += k
         elif op == 17:
@@ -855,7 +857,7 @@ def op_slices(inp):
             n = 3 + inp[i + 2]
         elif op == 11:
             n = 4 + inp[i + 2]
-        elif op == 13:
+        elif op in (13, 23):
             n = 3
         elif op == 15:
             n = 2 + inp[i + 1]
